@@ -19,7 +19,15 @@ ItemAt(g) ==
       base == Default(kind, <<50, t>>)
       f0   == IF kind = "legacy" /\ t % 4 = 3 THEN [base EXCEPT !["chainId"] = Absent] ELSE base
       f    == IF t >= NTx THEN [f0 EXCEPT !["data"] = [k |-> "hexstr", v |-> [rep |-> HugeData[t - NTx + 1], pat |-> "5a"]]] ELSE f0
-      doc  == [doc |-> MkDoc(f)]
+      \* every fourth session: the document is a JSON-RPC transaction object (eth_getTransactionByHash) that still
+      \* carries a STALE signature and the other members such objects have - they are not transaction fields: what is
+      \* signed and hashed is made of the specified members and of the signature given on the command line only
+      stale == << <<"r", NStr("0x" \o BytesToHex(<<1>> \o Prng(K("str", <<t>>), 31)))>>, <<"s", NStr("0x" \o BytesToHex(<<1>> \o Prng(K("sts", <<t>>), 31)))>>,
+                  <<"v", NStr(IF t % 8 = 1 THEN "0x1b" ELSE "0x1")>>, <<"yParity", NStr(IF t % 8 = 1 THEN "0x0" ELSE "0x1")>>,
+                  <<"hash", NStr("0x" \o BytesToHex(Prng(K("sth", <<t>>), 32)))>>, <<"from", NStr("0x" \o BytesToHex(Prng(K("stf", <<t>>), 20)))>>,
+                  <<"type", NStr("0x2")>>, <<"blockNumber", NNull>> >>
+      d0   == MkDoc(f)
+      doc  == [doc |-> IF t % 4 = 1 /\ t < NTx THEN NObj(d0.v \o stale) ELSE d0]
       acct == PlainAcct(Mnemonics[1 + (t % 3)])
       flags(only) == (IF only THEN <<"signature_only">> ELSE <<>>) \o <<"allow_missing">>
       sid  == "tx" \o ToString(t)
